@@ -491,8 +491,22 @@ func replayExitAfterDefer(rc *runCtx, h *harness, v *interp.Violation, file stri
 	switch kind {
 	case 2:
 		src = "package cand\n\ntype logger struct{}\n\nfunc (logger) " + f + "(v ...interface{}) {}\n\nfunc f() {\n\tvar " + q + " logger\n\tdefer println()\n\t" + q + "." + f + "(" + arg + ")\n}\n"
+	case 3:
+		// a field of that name on a compound receiver; the file imports what the model says
+		imports, use := "", ""
+		for _, p := range []string{"log", "os"} {
+			if mv, ok := v.Model["choose:file imports "+p+"?c"]; ok && mv.I != nil && mv.I.Int64() == 1 {
+				imports += "import \"" + p + "\"\n"
+				if p == "log" {
+					use += "var _ = log.Println\n"
+				} else {
+					use += "var _ = os.Getpid\n"
+				}
+			}
+		}
+		src = "package cand\n\n" + imports + "\n" + use + "\ntype logger struct{}\n\nfunc (logger) " + f + "(v ...interface{}) {}\n\ntype app struct{ " + q + " logger }\n\nfunc f(a app) {\n\tdefer println()\n\ta." + q + "." + f + "(" + arg + ")\n}\n"
 	default:
-		return false, "only the local-variable namesake is rebuilt natively (a foreign package of that name needs a module)"
+		return false, "only the variable / field namesakes are rebuilt natively (a foreign package of that name needs a module)"
 	}
 	if ok, msg := typeCheck(src); !ok {
 		return false, "the rebuilt program does not type-check: " + msg
